@@ -433,11 +433,12 @@ PROPS = {
         "rule": "genesis stream: per case one random CONSISTENT configuration derived from the mock genesis (2-9 users, 2-5 tokens, "
                 "1-5 pillars, delegations, legacy entries, 0-7 fusions with distinct ids, 0-4 swap entries, optional sporks, "
                 "optional swap/token/stake contract entries), 4 permutations of every unordered list -> NewGenesis hash in process "
-                "(every 5th config also in two fresh subprocesses), 6 single-entry perturbations drawn from 30 kinds PLUS two directed "
+                "(every 5th config also in two fresh subprocesses), 6 single-entry perturbations drawn from 36 kinds PLUS two directed "
                 "ones per configuration taken in rotation from the repaired gaps of the validators (plasma / pillar contract without "
                 "genesis entry, second entry for a user / a contract / an empty one, negative amount (fresh -v/+v pair or an existing "
-                "balance negated), nil amount, TotalSupply above MaxSupply (by 1, by half, MaxSupply 0), nil MaxSupply, and the accepted "
-                "boundary TotalSupply = MaxSupply) -> real CheckGenesis (whole and validator by validator) vs model verdict; model-free "
+                "balance negated), nil amount, TotalSupply above MaxSupply (by 1, by half, MaxSupply 0), nil MaxSupply, a negative fusion "
+                "amount / pillar stake compensated in the sum, a negative swap amount, a missing fusion / pillar amount, and the accepted "
+                "boundaries TotalSupply = MaxSupply and zero amounts) -> real CheckGenesis (whole and validator by validator) vs model verdict; model-free "
                 "monitors: a perturbation that by construction breaks one of the sums of the statement must be refused (never "
                 "accepted, never a panic), every accepted configuration is started on a fresh chain and the ledger is compared with "
                 "the statement's sums (supply per token <= MaxSupply, plasma / pillar / swap holdings); every 4th config goes through "
@@ -451,13 +452,11 @@ PROPS = {
         "partial": "invariance of the full genesis momentum (hash, patch of all embedded storage) under list permutation and across "
                    "fresh processes is decided by the stream on the real code, not by a theorem (the theorems cover the two "
                    "order-sensitive mechanisms: sorted momentum content, commuting writes to distinct keys). The soundness of "
-                   "CheckGenesis is a full statement since the validators were repaired (F13a-e fixed): check_genesis_sound has no "
+                   "CheckGenesis is a full statement since the validators were repaired (F13a-f fixed): check_genesis_sound has no "
                    "premise besides the representation invariant of a Go map (distinct keys in one BalanceList). Outside the model: "
-                   "configurations on which the validators dereference nil (missing TotalSupply / pillar Amount / fusion Amount, nil "
-                   "amount under the required token of a contract entry) — never accepted: CheckGenesis panics, "
-                   "ReadGenesisConfigFromFile returns ErrInvalidGenesisConfig (exercised through the file on every run). Individual "
-                   "pillar stakes / fusion amounts / swap amounts are not sign-checked by the validators, only their sums are "
-                   "compared with the contract balances; the statement is about those sums",
+                   "configurations on which the validators dereference nil (missing TotalSupply, nil amount under the required "
+                   "token of a contract entry; a missing pillar / fusion amount is a refusal since feb4686 and is modelled) — never accepted: CheckGenesis panics, "
+                   "ReadGenesisConfigFromFile returns ErrInvalidGenesisConfig (exercised through the file on every run)",
         "assumptions": ["SHA3 / ABI packing / LevelDB are not modelled: genesis hash equality is observed on the real code"],
     },
     "C15": {
